@@ -13,6 +13,7 @@ type ExpItem struct {
 	Item
 	Optional bool // its delivery raced, inside the code under test, with the subscriber's removal
 	Async    bool // produced by a resolver goroutine, not inside a call made by the harness
+	Pending  bool // Complete/Error of a call that is parked right now: may be written before or after the resume
 	Event    int  // N of the event/updateSub step that caused it, 0 otherwise
 	Why      string
 }
@@ -463,7 +464,7 @@ func (m *Model) Begin(st Step, reached bool) {
 				m.deferredSub = i
 				continue
 			}
-			s.Exp = append(s.Exp, ExpItem{Item: it, Why: why})
+			s.Exp = append(s.Exp, ExpItem{Item: it, Why: why, Pending: split})
 			if split {
 				m.unordered = append(m.unordered, i)
 				m.unorderedAt[i] = len(s.Exp) - 1
@@ -582,6 +583,9 @@ func (m *Model) End(st Step, reached bool) {
 		return // (a nested step must not touch the bookkeeping of the open split)
 	}
 	defer func() {
+		for sub, at := range m.unorderedAt {
+			m.Subs[sub].Exp[at].Pending = false
+		}
 		m.deferredSub = -1
 		m.unordered = nil
 		m.unorderedAt = map[int]int{}
